@@ -14,7 +14,7 @@ from vf import progmodel as pm
 PROPERTY = 'C01'
 LEVEL = 'exploration'
 RULE = ('programs = every node tree with <= 3 (quick) / <= 4 (thorough) nodes over the full '
-        'reduced alphabet, each run under default settings and under a settings tuple drawn '
+        'reduced alphabet and over the small alphabet (which has internal diagnoses), each run under default settings and under a settings tuple drawn '
         'deterministically from its index (stop_on_first_failure via TestOptions / CONF, '
         'allow_unset_measurements, failure_exceptions none/exact/superclass, test diagnoser '
         'pass/fail/raise, test_start phase), directed programs for executor failures and '
@@ -34,7 +34,8 @@ PLAN = {
     'thorough': {'workers': 16, 'budget_s': 1200, 'sampled_per_worker': 80000,
                  'wall_limit_s': 9000},
 }
-SPACES = {'quick': [('full', 3)], 'thorough': [('full', 4)]}
+SPACES = {'quick': [('full', 3), ('small', 3)],
+          'thorough': [('full', 4), ('small', 4)]}
 
 
 def setup():
